@@ -432,13 +432,24 @@ def carries(t, obj) -> bool:
     return False
 
 
-def all_closures(paths):
-    """Closures created on any path of a function, one per closure node."""
+def all_closures(paths, thunks: bool = False):
+    """Closures created on any path of a function, one per closure node.  A thunk - a closure that never leaves the invocation
+    that created it and is called there (by a helper it was handed to, inlined) - is left out unless asked for: its body has
+    been followed where it ran, under the handlers and after the checks that were in force there; analysed on its own it would
+    be judged without them."""
+    from .props.common import escapes, run_in_place
     seen, out = set(), []
+    by_node = {}
+    for p in paths:
+        for c in p.closures:
+            by_node.setdefault(id(c.node), []).append((c, p))
     for p in paths:
         for c in p.closures:
             if id(c.node) not in seen:
                 seen.add(id(c.node))
+                pairs = by_node[id(c.node)]
+                if not thunks and any(run_in_place(c_, p_) for c_, p_ in pairs) and all(escapes(c_, p_) is None for c_, p_ in pairs):
+                    continue
                 out.append(c)
     return out
 
